@@ -271,7 +271,7 @@ RoundFindings(ev) ==
   ELSE IF ev.kind = "twins" THEN
     \* a and b were fed exactly the same calls: same results, same caches, same JSON text (C16, C06)
     LET A == acc[ev.a]  B == acc[ev.b] IN
-    IF [i \in 1..Len(A.calls) |-> A.calls[i].n] = [i \in 1..Len(B.calls) |-> B.calls[i].n] /\ A.nbytes = B.nbytes
+    IF [i \in 1..Len(A.calls) |-> A.calls[i].buf] = [i \in 1..Len(B.calls) |-> B.calls[i].buf]
       THEN (IF A.shas # B.shas THEN {<<"C16", "json", "cross-parser", "">>} ELSE {})
            \cup (IF A.out # B.out \/ tms[ev.a] # tms[ev.b] THEN {<<"C06", "twins", "results-or-cache", "">>} ELSE {})
       ELSE {}
